@@ -28,7 +28,7 @@ func init() {
 			Setup: txnSetup, Exec: txnExec, Random: nil, Sig: txnSig, Assume: assume, MCWorkers: 12,
 		}
 	}
-	c05 := mk("C05", []string{"cells are small integers and NULL; statement forms: INSERT (1 and 2 rows, wrong length), UPDATE/DELETE with and without WHERE, REPLACE on one key column, ADD/DROP/RENAME column, on file tables and a temporary table; INSERT..SELECT, column lists, UPDATE..FROM join, multi-assignment UPDATE, ADD FIRST / DEFAULT expression, CREATE TABLE AS SELECT, SET ENCODING, inserts made by user-defined functions"}, "TxnGen_create.cfg", "TxnGen_temp.cfg")
+	c05 := mk("C05", []string{"cells are small integers and NULL; statement forms: INSERT (1 and 2 rows, wrong length), UPDATE/DELETE with and without WHERE, REPLACE on one key column, ADD/DROP/RENAME column, on file tables and a temporary table; INSERT..SELECT, column lists, UPDATE..FROM join, multi-assignment UPDATE, ADD FIRST / DEFAULT expression, CREATE TABLE AS SELECT, SET ENCODING, inserts made by user-defined functions"}, "TxnGen_create.cfg", "TxnGen_temp.cfg", "TxnGen_two.cfg")
 	c05.Random = func(r *core.Run, k int) (Action, []Action) { return txnRandom(r, k, "dml") }
 	c08 := mk("C08", []string{"failure causes modelled: division by zero at one row of a multi-row UPDATE, wrong row length, unknown field after RENAME/DROP, duplicate column, existing file, missing file, failing DEFAULT expression, ambiguous join update, CREATE TABLE AS SELECT with wrong names / failing query, COMMIT that cannot encode a changed file, one UPDATE of two tables failing in the second"}, "TxnGen_create.cfg", "TxnGen_commitfail.cfg", "TxnGen_temp.cfg", "TxnGen_two.cfg")
 	c08.Random = func(r *core.Run, k int) (Action, []Action) { return txnRandom(r, k, "fail") }
@@ -132,6 +132,8 @@ func tname(t string) string {
 
 var reCount = regexp.MustCompile(`(?m)^(\d+|no) (?:record|field)s? (?:inserted|updated|deleted|replaced|added|dropped|renamed) on`)
 
+var reCountOn = regexp.MustCompile(`(?m)^(\d+|no) records? deleted on "([^"]*)"`)
+
 func countOf(out string) (string, bool) {
 	m := reCount.FindStringSubmatch(out)
 	if m == nil {
@@ -187,6 +189,8 @@ func txnSQL(a Action) string {
 		return fmt.Sprintf("UPDATE tx SET tx.v = ux.v FROM %s tx JOIN %s ux ON tx.id = ux.id;", t, tname(aStr(a, "u")))
 	case "updatetwo":
 		return fmt.Sprintf("UPDATE tx, ux SET tx.v = tx.v + 1, ux.v = CASE WHEN ux.id = %d THEN 1 %% 0 ELSE ux.v + 1 END FROM %s tx JOIN %s ux ON tx.id = ux.id;", k, t, tname(aStr(a, "u")))
+	case "deletetwo":
+		return fmt.Sprintf("DELETE ux, tx FROM %s tx LEFT JOIN %s ux ON tx.id = ux.id WHERE tx.id = %d;", t, tname(aStr(a, "u")), k)
 	case "deletejoin":
 		return fmt.Sprintf("DELETE tx FROM %s ux JOIN %s tx ON tx.id = ux.id;", tname(aStr(a, "u")), t)
 	case "addfirst":
@@ -361,6 +365,22 @@ func txnExec(p *sut.Proc, a Action) Out {
 	r := p.Exec(sql)
 	if r.Err != "" {
 		return Out{K: "err", E: errClass(r), Vals: []string{}}
+	}
+	if actName(a) == "deletetwo" {
+		// one count per table, in the order (t, u) whatever the order of the lines
+		vals := []string{"no-count-reported", "no-count-reported"}
+		for _, m := range reCountOn.FindAllStringSubmatch(r.Out+r.Log, -1) {
+			n := m[1]
+			if n == "no" {
+				n = "0"
+			}
+			for i, f := range []string{aStr(a, "t"), aStr(a, "u")} {
+				if strings.HasSuffix(m[2], "/"+f+".csv") {
+					vals[i] = n
+				}
+			}
+		}
+		return Out{K: "val", Vals: vals}
 	}
 	n, ok := countOf(r.Out + r.Log)
 	if !ok {
@@ -582,7 +602,7 @@ func runC01(r *core.Run) {
 		nsim = 4000
 	}
 	var behs []c01beh
-	for gi, gcfg := range []string{"TxnScriptGen.cfg", "TxnScriptGen_commitfail.cfg", "TxnScriptGen_create.cfg", "TxnScriptGen_temp.cfg"} {
+	for gi, gcfg := range []string{"TxnScriptGen.cfg", "TxnScriptGen_commitfail.cfg", "TxnScriptGen_create.cfg", "TxnScriptGen_temp.cfg", "TxnScriptGen_two.cfg"} {
 		ns := nsim
 		if gi > 0 {
 			ns = nsim * 2
